@@ -1,5 +1,6 @@
 CONSTANTS
   Atomic = TRUE
+  DropDetached = TRUE
   Namespace = {1}
 INIT TInit
 NEXT TNext
